@@ -30,17 +30,18 @@ theorem fillNodes_validEnd (S : Schema) (d : Dfa) (q : Nat) (h : d.validEnd q = 
   rfl
 
 /-- a context created by `enter` (or the root of `parse`) with nothing pending -/
-structure Plain (cx : NodeCtx) (t : TypeId) (q : Nat) : Prop where
+structure Plain (S : Schema) (cx : NodeCtx) (t : TypeId) (q : Nat) : Prop where
   ty : cx.ty = some t
   mtch : cx.mtch = some q
   solid : cx.solid = true
-  pending : cx.pending = []
+  /-- pending marks, if any, are marks the context's type does not allow: `apply_pending` leaves them pending -/
+  pending : ∀ m ∈ cx.pending, (S.nodeType t).allowsMarkType m.2.ty = false
   active : cx.active = []
   marks : cx.marks = []
   openLeft : cx.opts.openLeft = false
 
 theorem findPlace_direct (S : Schema) (wsPre : TypeId → Bool) (st : PState) (cx : NodeCtx) (t : TypeId) (q q' : Nat)
-    (ty : TypeId) (hn : st.nodes[st.open_]? = some cx) (hp : Plain cx t q)
+    (ty : TypeId) (hn : st.nodes[st.open_]? = some cx) (hp : Plain S cx t q)
     (hm : (S.dfa t).matchType q ty = some q') : st.findPlace S wsPre ty = .ok (st, true) := by
   unfold PState.findPlace
   simp only [findPlaceLoop, hn, findWrapping_known S cx t q ty hp.ty hp.mtch,
@@ -160,8 +161,29 @@ theorem applyPending_nil (S : Schema) (cx : NodeCtx) (ty : TypeId) (h : cx.pendi
   unfold NodeCtx.applyPending
   rw [h]; rfl
 
-theorem Plain.withContent {cx : NodeCtx} {t : TypeId} {q : Nat} (hp : Plain cx t q) (c : List Node) :
-    Plain { cx with content := c } t q := ⟨hp.ty, hp.mtch, hp.solid, hp.pending, hp.active, hp.marks, hp.openLeft⟩
+theorem applyPending_fold_inert (S : Schema) (nextTy : TypeId) (t : TypeId) : ∀ (l : List TMark) (cx : NodeCtx),
+    cx.ty = some t → (∀ m ∈ l, (S.nodeType t).allowsMarkType m.2.ty = false) →
+    l.foldl (fun cx m =>
+      let may := match cx.ty with
+        | some t => (S.nodeType t).allowsMarkType m.2.ty
+        | none => markMayApply S m.2.ty nextTy
+      if may && !m.2.isInSet cx.active then
+        { cx with active := m.2.addToSet S cx.active, pending := tRemoveFromSet m.2 cx.pending,
+                  activeT := tAddToSet S m cx.activeT }
+      else cx) cx = cx
+  | [], _, _, _ => rfl
+  | m :: l, cx, hty, h => by
+    have hm := h m List.mem_cons_self
+    simp only [List.foldl_cons, hty, hm, Bool.false_and, Bool.false_eq_true, if_false]
+    exact applyPending_fold_inert S nextTy t l cx hty (fun x hx => h x (List.mem_cons_of_mem _ hx))
+
+theorem applyPending_inert (S : Schema) (cx : NodeCtx) (ty : TypeId) (t : TypeId) (hty : cx.ty = some t)
+    (h : ∀ m ∈ cx.pending, (S.nodeType t).allowsMarkType m.2.ty = false) : cx.applyPending S ty = cx := by
+  unfold NodeCtx.applyPending
+  exact applyPending_fold_inert S ty t cx.pending cx hty h
+
+theorem Plain.withContent {cx : NodeCtx} {t : TypeId} {q : Nat} (hp : Plain S cx t q) (c : List Node) :
+    Plain S { cx with content := c } t q := ⟨hp.ty, hp.mtch, hp.solid, hp.pending, hp.active, hp.marks, hp.openLeft⟩
 
 /-- `insert_node` after `find_place` and `close_extra` -/
 def placeTop (S : Schema) (st : PState) (node : Node) : Res (PState × Bool) :=
@@ -180,13 +202,13 @@ def placeTop (S : Schema) (st : PState) (node : Node) : Res (PState × Bool) :=
 
 theorem placeTop_plain (S : Schema) (st : PState) (base : List NodeCtx) (cx : NodeCtx)
     (t : TypeId) (q q' : Nat) (node : Node)
-    (hn : st.nodes = base ++ [cx]) (ho : st.open_ = base.length) (hp : Plain cx t q)
+    (hn : st.nodes = base ++ [cx]) (ho : st.open_ = base.length) (hp : Plain S cx t q)
     (hm : (S.dfa t).matchType q (S.tyOf node) = some q') (hmk : node.marks = []) :
     placeTop S st node =
       .ok ({ st with nodes := base ++ [{ cx with content := cx.content ++ [node], mtch := some q' }] }, true) := by
   have hx : st.nodes[st.open_]? = some cx := by rw [hn, ho]; exact getElem?_base base cx []
   unfold placeTop
-  simp only [hx, applyPending_nil S _ _ hp.pending, hp.mtch, hp.ty, hm, hmk, List.foldl_nil, hp.active]
+  simp only [hx, applyPending_inert S cx _ t hp.ty hp.pending, hp.mtch, hp.ty, hm, hmk, List.foldl_nil, hp.active]
   have := withMarks_self node
   rw [hmk] at this
   simp only [PState.setTop, ho, hn, set_base, this]
@@ -194,7 +216,7 @@ theorem placeTop_plain (S : Schema) (st : PState) (base : List NodeCtx) (cx : No
 /-- a mark-free node the automaton accepts goes straight into the open context -/
 theorem insertNode_plain (S : Schema) (wsPre : TypeId → Bool) (st : PState) (base : List NodeCtx) (cx : NodeCtx)
     (ext : List NodeCtx) (c : List Node) (t : TypeId) (q q' : Nat) (node : Node)
-    (hn : st.nodes = base ++ cx :: ext) (ho : st.open_ = base.length) (hp : Plain cx t q) (hs : Settles S cx ext c)
+    (hn : st.nodes = base ++ cx :: ext) (ho : st.open_ = base.length) (hp : Plain S cx t q) (hs : Settles S cx ext c)
     (hm : (S.dfa t).matchType q (S.tyOf node) = some q') (hmk : node.marks = []) :
     st.insertNode S wsPre node =
       .ok ({ st with nodes := base ++ [{ cx with content := c ++ [node], mtch := some q' }] }, true) := by
@@ -226,7 +248,7 @@ def pushTop (S : Schema) (wsPre : TypeId → Bool) (st : PState) (ty : TypeId) (
 
 theorem pushTop_plain (S : Schema) (wsPre : TypeId → Bool) (st : PState) (base : List NodeCtx) (cx : NodeCtx)
     (t : TypeId) (q q' : Nat) (ty : TypeId) (attrs : Option Attrs) (pw : WS)
-    (hn : st.nodes = base ++ [cx]) (ho : st.open_ = base.length) (hp : Plain cx t q)
+    (hn : st.nodes = base ++ [cx]) (ho : st.open_ = base.length) (hp : Plain S cx t q) (hpe : cx.pending = [])
     (hm : (S.dfa t).matchType q ty = some q') :
     pushTop S wsPre st ty attrs true pw =
       .ok { st with nodes := base ++ [{ cx with mtch := some q' },
@@ -234,15 +256,16 @@ theorem pushTop_plain (S : Schema) (wsPre : TypeId → Bool) (st : PState) (base
                     open_ := base.length + 1, fresh := st.fresh + 1 } := by
   have hx : st.nodes[st.open_]? = some cx := by rw [hn, ho]; exact getElem?_base base cx []
   unfold pushTop
-  simp only [hx, applyPending_nil S cx ty hp.pending]
+  simp only [hx, applyPending_nil S cx ty hpe]
   simp only [hp.mtch, hp.ty, hm, hp.active, hp.openLeft,
-    Bool.false_and, Bool.false_eq_true, if_false, PState.setTop, hp.pending, ho, hn, set_base]
+    Bool.false_and, Bool.false_eq_true, if_false, PState.setTop, hpe, ho, hn, set_base]
   simp
 
 /-- `enter` of a type the automaton accepts opens it directly below the open context -/
 theorem enter_plain (S : Schema) (wsPre : TypeId → Bool) (st : PState) (base : List NodeCtx) (cx : NodeCtx)
     (ext : List NodeCtx) (c : List Node) (t : TypeId) (q q' : Nat) (ty : TypeId) (attrs : Option Attrs) (pw : WS) (a : Attrs)
-    (hn : st.nodes = base ++ cx :: ext) (ho : st.open_ = base.length) (hp : Plain cx t q) (hs : Settles S cx ext c)
+    (hn : st.nodes = base ++ cx :: ext) (ho : st.open_ = base.length) (hp : Plain S cx t q) (hpe : cx.pending = [])
+    (hs : Settles S cx ext c)
     (hm : (S.dfa t).matchType q ty = some q') (ha : computeAttrs (S.nodeType ty).attrs (attrs.getD []) = .ok a) :
     st.enter S wsPre ty attrs pw =
       .ok ({ st with nodes := base ++ [{ cx with content := c, mtch := some q' },
@@ -257,7 +280,7 @@ theorem enter_plain (S : Schema) (wsPre : TypeId → Bool) (st : PState) (base :
     simp only [closeExtra_settles S st base cx c ext hn ho hs]
     rfl
   rw [h1, pushTop_plain S wsPre { st with nodes := base ++ [{ cx with content := c }] } base { cx with content := c } t q q' ty
-    attrs pw rfl ho (hp.withContent c) hm]
+    attrs pw rfl ho (hp.withContent c) hpe hm]
   rfl
 
 end PM.RoundTrip
